@@ -73,6 +73,11 @@ def run_case(ctx, rep, case, base, model_ok):
                     if wk == "delete+append":
                         tx.append_data(tablekit.rows(1, start=100 * a, tag=f"w{a}_"))
                     return tx.commit()
+            if wk == "append+expire":        # ONE transaction: an append and an expiry of every older snapshot
+                with h.new_transaction() as tx:
+                    tx.append_data(tablekit.rows(1, start=100 * a, tag=f"w{a}_"))
+                    tx.expire_snapshots(10**15)
+                    return tx.commit()
             if wk == "multi":
                 with h.new_transaction() as tx:
                     tx.append_data(tablekit.rows(1, start=100 * a, tag=f"w{a}a_"))
@@ -143,10 +148,28 @@ def run_case(ctx, rep, case, base, model_ok):
             out = []
             for api in apis:
                 S.record("read-start", api)
+                undo = None
+                if case.get("reader_hint_fault"):
+                    # the reader's FIRST read of the pointer fails transiently (EMFILE / EIO): it may raise — it must not guess
+                    o_rf = h.storage.read_file
+                    shot = {"n": 0}
+
+                    def faulty(p_, *a_, _o=o_rf, **k_):
+                        if shot["n"] == 0 and str(p_).lstrip("/") == "metadata.version-hint.text":
+                            shot["n"] = 1
+                            raise OSError(24, "injected transient error on the pointer read")
+                        return _o(p_, *a_, **k_)
+                    h.storage.read_file = faulty
+                    undo = lambda: setattr(h.storage, "read_file", o_rf)
                 try:
                     r = _read(h, api)
                 except Exception as e:      # noqa: BLE001
                     r = ("raise", f"{type(e).__name__}: {str(e)[:60]}")
+                    if case.get("reader_hint_fault") and "injected transient" in str(e):
+                        r = ("raise-injected", "")
+                finally:
+                    if undo:
+                        undo()
                 S.record("read-end", r)
                 out.append(r)
             return out
@@ -230,7 +253,9 @@ def run_case(ctx, rep, case, base, model_ok):
                         ok_versions.append(k_)
                     elif got[0] == "rows-ge0" and got[1] == exp:
                         ok_versions.append(k_)
-                if not ok_versions:
+                if not ok_versions and got[0] == "raise-injected":
+                    rep.distribution["read-raised-the-injected-fault"] += 1
+                elif not ok_versions:
                     if got[0] == "raise" and "inconsistent" in got[1] and not versions[lo]["has"]:
                         sig = "C02:spurious-inconsistent-error-on-first-commit"
                     elif got[0] == "raise":
@@ -244,7 +269,7 @@ def run_case(ctx, rep, case, base, model_ok):
                         rep.violate("C02:reads-moved-backwards", f"{api}: handle saw version {last_seen} then {max(ok_versions)}", case_rec)
                     last_seen = max(last_seen, min(ok_versions))
                 # ---- correspondence with the reader model
-                if model_ok and hint_reads:
+                if model_ok and hint_reads and got[0] != "raise-injected" and not case.get("reader_hint_fault"):
                     i1 = pos_of(hint_reads[0] + 1)
                     i2 = pos_of(hint_reads[1] + 1) if len(hint_reads) > 1 else i1
                     tl = ",".join(f"{1 if v['has'] else 0}/{len(v['rows'])}" for v in versions)
@@ -319,7 +344,7 @@ def directed_sweep(ctx, rep, base, model_ok, next_id):
     stride = 1 if (ctx.thorough or ctx.intensify) else 2
     # same handle: read, a whole commit of each kind (incl. rolling the table back), read again
     for api in APIS:
-        for wk in ("append", "delete", "multi", "delcur", "failed", "rollback", "dirfsync:hint", "delete-partial", "delete+append"):
+        for wk in ("append", "delete", "multi", "delcur", "failed", "rollback", "dirfsync:hint", "delete-partial", "delete+append", "append+expire"):
             c = {"id": next_id, "start_empty": False, "writers": [wk], "readers": [[api, api]], "chooser": _between_reads}
             next_id += 1
             try:
@@ -328,11 +353,12 @@ def directed_sweep(ctx, rep, base, model_ok, next_id):
             except sched.Stuck as e:
                 rep.notes.append(f"between-reads case {api}/{wk} stuck: {e}")
     # the other way round: a whole read placed after each gated operation of a commit (incl. commits that fail half-way)
-    for wk in ("append", "delete", "failed", "dirfsync:hint", "dirfsync:meta", "delete-partial", "delete+append"):
+    for wk in ("append", "delete", "failed", "dirfsync:hint", "dirfsync:meta", "delete-partial", "delete+append", "append+expire", "append!rf", "failed!rf"):
         for api in (APIS if (ctx.thorough or ctx.intensify) else ["scan", "row_count", "iter_records"]):
             k = 0
             while True:
-                c = {"id": next_id, "start_empty": False, "writers": [wk], "readers": [[api]], "chooser": _reader_after_k(k)}
+                c = {"id": next_id, "start_empty": False, "writers": [wk.split("!")[0]], "readers": [[api]], "chooser": _reader_after_k(k),
+                     "reader_hint_fault": wk.endswith("!rf")}
                 next_id += 1
                 try:
                     run_case(ctx, rep, c, base, model_ok)
